@@ -4,7 +4,7 @@ import random
 
 from .. import core, flow, corr_loop, oracles_sde as osde
 
-PROOFS = ['Tsv.Proofs.LoopCore', 'Tsv.Proofs.C14', 'Tsv.Proofs.C14Term']
+PROOFS = ['Tsv.Proofs.LoopCore', 'Tsv.Proofs.C14', 'Tsv.Proofs.C14Term', 'Tsv.Proofs.C14Exec']
 TRUSTED = ["Lean 4.33 kernel + Mathlib", "adaptive loop model tied to the real integrate by correspondence (every trial: "
            "curr_t, next_t, step size, error, accepted — bit for bit)", "tracer/emitter for update_step_size/compute_error",
            "termination (C14Term.adaptive_terminates) is proved over an Archimedean ordered field for every error oracle; floats can "
